@@ -326,7 +326,7 @@ static Boolean DecodeAdr(
                 if (OK) {
                     if ((Reg == 2) || (Reg == 3)) {
                         WrStrErrorPos(ErrNum_InvReg, &RegComp);
-                    } else if ((pAdrParts->Val == 0) && ((Mask & 4) != 0)) {
+                    } else if ((pAdrParts->Val == 0) && ((Mask & 4) != 0) && (Reg != RegPC)) {
                         pAdrParts->Part = Reg;
                         pAdrParts->Mode = eModeIReg;
                     } else {
